@@ -29,7 +29,18 @@ def sni_len_typo(op, impl, model):
     return False
 
 
+def swap_keep(op, impl, model):
+    """history whose last change to the served paths is a symlinked-directory swap that leaves the old
+    directory in place (step s<k>): no inotify event reaches the watcher, the old pair stays served."""
+    if not op.startswith('cert '):
+        return False
+    m = re.search(r'steps=(\S+)', op)
+    steps = m.group(1).split(',') if m else []
+    return bool(steps) and any(re.fullmatch(r's\d+', st) for st in steps)
+
+
 MATCHERS = {
+    'symlink-swap-without-delete': swap_keep,
     'sni-list-length-typo': sni_len_typo,
 }
 
